@@ -55,6 +55,7 @@ ASSUMPTIONS = [
     "its own range is non-degenerate (rotation != 0; scale[0] != scale[1]; translate_width or _height > 0); affine "
     "parameters of components that are NOT named may be either the schema default or neutral (0, (1,1), None)",
     "out-of-range probabilities include not-a-number (a value for which neither v < 0 nor v > 1 holds)",
+    "oneof members are passed by keyword, positionally, and mixed (first positionally, rest by keyword)",
     "'reject' = the constructor / builder raises (any exception type; the type is recorded in the outcome census); "
     "verify_training_cfg on an already-assembled invalid DictConfig is only observed (obs_* counters), the property "
     "speaks about configuration objects",
@@ -981,12 +982,20 @@ def run_oneof(case, o):
     o.transitions += 1
     try:
         if case["cls"] == "BackboneConfig":
-            obj = MC.BackboneConfig(**{f: getattr(MC, FAMILIES[f])() for f in members})
+            cls, vals = MC.BackboneConfig, {f: getattr(MC, FAMILIES[f])() for f in members}
         elif case["cls"] == "HeadConfig":
-            obj = MC.HeadConfig(**{h: getattr(MC, HEADS[h][0])() for h in members})
+            cls, vals = MC.HeadConfig, {h: getattr(MC, HEADS[h][0])() for h in members}
         else:
             cls = local_oneof_class(case["cls"] == "oneof(must_be_set=True)")
-            obj = cls(**{f: 1 for f in members})
+            vals = {f: 1 for f in members}
+        mode = case.get("call", "kw")  # how the members are passed: keywords / positionally / first one positionally
+        names = [a.name for a in m["attrs"].fields(cls)]
+        if mode == "kw" or not vals:
+            obj = cls(**vals)
+        else:
+            upto = max(names.index(k) for k in vals) if mode == "pos" else min(names.index(k) for k in vals)
+            args = [vals.get(nm) for nm in names[: upto + 1]]
+            obj = cls(*args, **{k: v for k, v in vals.items() if names.index(k) > upto})
         raised = None
     except Exception as e:
         raised = e
@@ -1326,6 +1335,10 @@ def enumerate_cases(tier):
         for k in range(0, len(members) + 1):
             for s in itertools.permutations(members, k) if k <= 2 else itertools.combinations(members, k):
                 cases.append({"kind": "oneof", "cls": cls, "set": list(s)})
+                if k >= 1:  # the same members passed positionally / the first one positionally and the rest by keyword
+                    cases.append({"kind": "oneof", "cls": cls, "set": list(s), "call": "pos"})
+                    if k >= 2:
+                        cases.append({"kind": "oneof", "cls": cls, "set": list(s), "call": "mixed"})
 
     # ---- observations only
     for path, v in (("data_config.augmentation_config.geometric.affine_p", 1.5), ("data_config.preprocessing.scale", -1.0), ("model_config.backbone_config.convnext", {"model_type": "huge"}), ("trainer_config.optimizer_name", "SGD")):
